@@ -366,7 +366,14 @@ def gen_history(rng, version, n, persist=False, ota=True, sleep=True, malformed=
             node = known_node()
             child = rng.choice(child_pool)
             typ = rng.choice(pres)
-            hist.append(line(node, child, mt.presentation, 0, typ, rng.choice(["", "desc", "ünï cöde", "a b"])))
+            known_children = sym.nodes.get(node, {}).get("children", {})
+            if known_children and rng.random() < 0.35:
+                # re-presentation of an existing child: same type (other description) or another type
+                child = rng.choice(list(known_children))
+                if rng.random() < 0.6:
+                    typ = known_children[child]
+            hist.append(line(node, child, mt.presentation, 0, typ,
+                             rng.choice(["", "desc", "ünï cöde", "a b", "kitchen", "garage"])))
             if node in sym.nodes:
                 sym.nodes[node]["children"].setdefault(child, typ)
         elif kind == "set":
